@@ -5,7 +5,7 @@ import subprocess
 from vfchecks import CHECKS, MANIFEST_TEXT
 
 ALL = ["C%02d" % i for i in range(1, 21)]
-IN_PROGRESS = {'C10'}  # configs exist but the builder has not delivered yet
+IN_PROGRESS = set()  # configs exist but the builder has not delivered yet
 
 def hook_commits():
     try:
